@@ -5,6 +5,8 @@
 //	rtconf confhist  one JSON case per line {"id":…, "ops":[["with",opt] | ["set",opt] | ["build"] | ["copy"]]…}: several steps on ONE RestConf value
 //	rtconf registry  one JSON case per line {"id":…, "ops":[["reg",T,K] | ["new",T,opts]]…}: each history runs in a fresh child
 //	                 process (the registry is a package-level map that is never emptied)
+//	rtconf clients   one JSON case per line {"id":…, "ops":[["new",T,opts] | ["with",j,opt] | ["again",j]]…}: clients that keep their RestConf,
+//	                 looked at again (getters, BuildMiddleware + round trip) after further NewRest / With calls
 //	rtconf regchild  (internal) one history on stdin
 //	rtconf ext       one JSON request per line: apply url.JoinPath / url.Values.Encode
 //
@@ -41,6 +43,8 @@ func main() {
 		runConf(lines, out)
 	case "confhist":
 		runConfHist(lines, out)
+	case "clients":
+		runClients(lines, out)
 	case "registry":
 		runRegistry(lines, out)
 	case "regchild":
